@@ -76,7 +76,7 @@ def ensure_built(need_race=False, need_386=False):
     fcntl.flock(lock, fcntl.LOCK_EX)
     try:
         # translators
-        for tool in ('constgen', 'limbgen', 'effgen'):
+        for tool in ('constgen', 'limbgen', 'asmgen', 'bigintgen', 'effgen'):
             src = V + '/tools/' + tool
             if not os.path.isdir(src):
                 continue
@@ -84,13 +84,19 @@ def ensure_built(need_race=False, need_386=False):
                 continue
             if tool == 'limbgen' and 'Gen/FfRoutines.v' not in open(COQ + '/_CoqProject').read():
                 continue
+            if tool == 'bigintgen' and 'Gen/BigIntRoutines.v' not in open(COQ + '/_CoqProject').read():
+                continue
+            if tool == 'asmgen' and 'Gen/FfAsm.v' not in open(COQ + '/_CoqProject').read():
+                continue
             exe = BIN + '/' + tool
             if not os.path.exists(exe) or any(newer(os.path.join(src, f), exe) for f in os.listdir(src) if f.endswith('.go')):
                 rc, out, _ = sh('go build -o %s .' % exe, cwd=src, env=GOENV)
                 if rc != 0:
                     raise SystemExit('cannot build %s:\n%s' % (tool, out))
             rc, out, _ = sh('%s %s %s' % (exe, REPO, V), timeout=600)
-            if rc != 0:
+            if rc == 3 and tool == 'bigintgen':
+                b.notes.append('bigintgen: some functions could not be translated (marker definitions emitted): ' + out[-600:])
+            elif rc != 0:
                 b.notes.append('%s failed on the current tree: %s' % (tool, out[-2000:]))
                 b.make_ok = False
                 b.failed_files.append('translator:' + tool)
@@ -183,6 +189,25 @@ def hygiene():
             if re.match(r'End\b', s) and depth > 0:
                 depth -= 1
     return bad
+
+
+def property_closure(pid):
+    """names of all files the property file transitively requires (from the .d file of coq_makefile)"""
+    try:
+        dtxt = open(COQ + '/.Makefile.d').read()
+    except OSError:
+        return ''
+    deps = {}
+    for m in re.finditer(r'^(\S+)\.vo \S+\.glob[^:]*:(.*)$', dtxt, re.M):
+        deps[m.group(1)] = [d[:-3] for d in m.group(2).split() if d.endswith('.vo')]
+    seen, todo = set(), ['Properties/' + pid]
+    while todo:
+        x = todo.pop()
+        if x in seen:
+            continue
+        seen.add(x)
+        todo += deps.get(x, [])
+    return ' '.join(sorted(seen))
 
 
 def coq_property(pid):
@@ -492,6 +517,18 @@ def main():
     hyg = hygiene()
     cp = coq_property(pid)
     proof_ok = cp['ok'] and not hyg
+    if b is not None:
+        # a translator that refuses the current source leaves its generated file stale:
+        # every property whose theorem file depends on that output is no longer shown to hold
+        dep = dict(constgen=None, asmgen=('FfAsm', 'Asm'), limbgen=('FfRoutines', 'FfgRoutines'), bigintgen=('BigIntRoutines', 'BigIntEq'), effgen=('EffectsIR', 'Effects'))
+        closure = property_closure(pid)
+        for ff_ in b.failed_files:
+            if ff_.startswith('translator:'):
+                tname = ff_.split(':')[1]
+                keys = dep.get(tname)
+                if keys is None or any(k in closure for k in keys):
+                    proof_ok = False
+                    notes.append('translator %s failed on the current source (its output is stale)' % tname)
     bad_ax = [x for x in cp['axioms'] if not x.startswith(ALLOWED_AXIOM_PREFIXES)]
     if bad_ax:
         proof_ok = False
